@@ -8,6 +8,7 @@ import (
 	"time"
 
 	"github.com/KevoDB/kevo/pkg/common/log"
+	"github.com/KevoDB/kevo/pkg/verifhook"
 )
 
 // Registry manages transaction lifecycle and connections
@@ -230,6 +231,7 @@ func (r *RegistryImpl) Begin(ctx context.Context, engine interface{}, readOnly b
 			err = fmt.Errorf("nil engine provided to transaction registry")
 		}
 
+		verifhook.At("tx.registry.begin.after_tx")
 		select {
 		case resultCh <- txResult{tx, err}:
 			// Successfully sent result
